@@ -22,7 +22,7 @@ RULE = (
     "included), x 4/8 cost triples x eos in {None,2} x include_eos x exclude_last x batch_first x "
     "two padding values; per prefix the oracle tries every token of the alphabet and keeps those "
     "whose best reachable distance (row minimum of the Levenshtein table) does not rise. Hard OCD "
-    "loss on the same batches with seed-valued logits, V=3, reductions none/sum/mean, optional class "
+    "loss on the same batches with seed-valued logits, V=3 (and V=4 with the in-range but unused class 3 as ignore_index), reductions none/sum/mean, optional class "
     "weights, logits also attached to the autograd graph and a 'confident' variant with exactly-zero step losses. "
     "Rows are checked only for hypotheses with >=1 counted token (as the property states); with an eos the reduced "
     "losses are judged on the sub-batch of those hypotheses, which still contains empty references (no target at any "
@@ -150,6 +150,9 @@ def _check_batch(ctx, pairs, ref, hyp, eos, include_eos, cost, tier, tag, seed, 
             logits = torch.tensor([[[40.0 if v == (j + n) % V else 0.0 for v in range(V)] for n in range(N)]
                                    for j in range(H)])
         _check_loss(ctx, pairs, effs, ref, hyp, logits, eos, include_eos, cost, tier, tag, seed, sigma, variant)
+        if variant == "seed":  # four classes, tokens still from {0,1,2}: ignore_index 3 is a valid class index
+            logits4 = torch.tensor([[[round(rng.uniform(-2, 2), 3) for _ in range(4)] for _ in range(N)] for _ in range(H)])
+            _check_loss(ctx, pairs, effs, ref, hyp, logits4, eos, include_eos, cost, "quick", tag, seed, sigma, "seed-v4")
         # the same logits attached to the autograd graph (the training path) must give the same values
         _check_loss(ctx, pairs, effs, ref, hyp, logits.clone().requires_grad_(True), eos, include_eos, cost, "quick",
                     tag, seed, sigma, variant + "+grad")
@@ -157,7 +160,7 @@ def _check_batch(ctx, pairs, ref, hyp, eos, include_eos, cost, tier, tag, seed, 
 
 def _check_loss(ctx, pairs, effs, ref, hyp, logits, eos, include_eos, cost, tier, tag, seed, sigma, variant,
                 sub=False):
-    N, H, V = len(pairs), hyp.size(0), 3
+    N, H, V = len(pairs), hyp.size(0), logits.size(-1)
     keep = [n for n in range(len(pairs)) if len(effs[n][1]) > 0]
     if not sub and 0 < len(keep) < N:
         # with an eos some hypotheses of the all-pairs batch have no counted token, which leaves the reduced losses
@@ -169,13 +172,17 @@ def _check_loss(ctx, pairs, effs, ref, hyp, logits, eos, include_eos, cost, tier
                     tag, seed, sigma, variant, sub=True)  # the quick weight menu: the sub-batch adds references, not weights
     lsm = torch.log_softmax(logits.detach().double(), -1).tolist()
     weights = [None, [0.5, 2.0, 1.0], [0.0, 1.0, 1.0]] if tier == "thorough" else [None, [0.0, 2.0, 1.0]]
+    if V != 3:  # the four-class variant: class 3 is in the logits but never a token; it serves as ignore_index
+        weights = [None, [0.5, 2.0, 1.0, 3.0]]
     for batch_first, reduction, weight in itertools.product((False, True), ("none", "sum", "mean"), weights):
         if eos is not None and include_eos is False and False:
             continue
         r_in, h_in, l_in = (ref.t(), hyp.t(), logits.transpose(0, 1)) if batch_first else (ref, hyp, logits)
         kw = dict(eos=eos, include_eos=include_eos, batch_first=batch_first, ins_cost=cost[0],
                   del_cost=cost[1], sub_cost=cost[2], reduction=reduction,
-                  ignore_index=(-2 if (batch_first or weight is not None) else 5))  # 5: a positive unused id
+                  ignore_index=((3 if not batch_first else -2) if V == 4 else
+                                (-2 if (batch_first or weight is not None) else 5)))  # 5: a positive unused id; 3 (V=4): an
+        # IN-RANGE class index that never occurs as a token - padding must not be scored as that class
         wt = None if weight is None else torch.tensor(weight)
         case = {"kind": "ocd-loss", "tag": tag, "R": ref.size(0), "H": H, "seed": seed, "weight": weight,
                 "reversed": tag.endswith("reversed"), "sigma": list(sigma), "logits": variant,
